@@ -208,3 +208,39 @@ def terms_for(state_type):
 # what item type a scan state becomes once emitted
 STATE_ITEM_TYPE = {'int': 'int', 'float': 'float', 'bool': 'any', 'list': 'list',
                    'dict': 'any', 'deque': 'any', 'tup': 'any', 'tup2': 'any'}
+
+
+# ---- functions handed to rxsci by the program builder (kept here so that an exception raised inside them is
+# ---- recognised as "the system called a user function with something foreign", see core.innermost_in_verif)
+from datetime import datetime as _dt, timedelta as _td
+_EPOCH = _dt(2020, 1, 1)
+
+
+def time_of(r):
+    return r.t
+
+
+def time_of_dt(r):
+    return _EPOCH + _td(seconds=r.t)
+
+
+def closing_of(r):
+    return r.c
+
+
+def always_true(i):
+    return True
+
+
+def noop(i):
+    return None
+
+
+def star_rec(fn):
+    def star(k, n, v, t, c):
+        return fn(Rec(k, n, v, t, c))
+    return star
+
+
+def error_to_rec(e):
+    return Rec(e.args[1], e.args[2], -1, 0, False)
